@@ -155,7 +155,7 @@ namespace gx
             }
             return true;
         }
-        bool operator<(const Rec &o) const { return std::tie(t, id) < std::tie(o.t, o.id); }
+        bool operator<(const Rec &o) const { return std::tie(t, id, out, v[0], v[1], v[2]) < std::tie(o.t, o.id, o.out, o.v[0], o.v[1], o.v[2]); }
         std::string str() const
         {
             std::ostringstream o;
